@@ -310,9 +310,13 @@ func rulesC15(c *Ctx) {
 
 	// ---- R2 one mutex per name --------------------------------------------------------
 	le := NewLockEngine(c.P)
-	n2 := checkThenInsert(c, le, "R2", c.P.PkgFuncs(mutexPkg), sm, "mutexes", "mutexesMU")
-	c.Floor("R2", n2, 1)
-	guardedAccessRule(c, le, "R2", c.P.PkgFuncs(mutexPkg), sm, "mutexes", "mutexesMU", nil)
+	if n2s, isSyncMap := ruleSyncMapRegistry(c, "R2", sm, getF); isSyncMap {
+		c.Floor("R2", n2s, 1)
+	} else {
+		n2 := checkThenInsert(c, le, "R2", c.P.PkgFuncs(mutexPkg), sm, "mutexes", "mutexesMU")
+		c.Floor("R2", n2, 1)
+		guardedAccessRule(c, le, "R2", c.P.PkgFuncs(mutexPkg), sm, "mutexes", "mutexesMU", nil)
+	}
 
 	// ---- R3 mode mapping and symmetry -----------------------------------------------------
 	n3 := 0
@@ -647,6 +651,18 @@ func rulesC15(c *Ctx) {
 					continue
 				}
 				edges = append(edges, edge{r.Results[0], hf.At(r.Block())})
+			}
+		} else if elems := appendedElems(mu.Key); len(elems) > 0 {
+			// the keys were first collected in a local slice (store only if the whole list is valid):
+			// judge every value appended to it, where it was appended
+			for _, el := range elems {
+				if p, ok := el.v.(*ssa.Phi); ok {
+					for i, e := range p.Edges {
+						edges = append(edges, edge{e, factsOnEdge(facts, p.Block().Preds[i], p.Block())})
+					}
+				} else {
+					edges = append(edges, edge{el.v, facts.At(el.at.Block())})
+				}
 			}
 		} else {
 			edges = append(edges, edge{mu.Key, facts.At(b)})
@@ -983,4 +999,158 @@ func keyHelperCall(key ssa.Value, f *ssa.Function) *ssa.Call {
 		return nil
 	}
 	return call
+}
+
+// ruleSyncMapRegistry: the name -> mutex registry kept in a sync.Map.  One mutex per name
+// then needs: entries are only ever added by LoadOrStore (never Store/Swap/Delete...: an
+// entry is never replaced or dropped), and get hands out what LoadOrStore (or Load) returned,
+// never its own freshly made candidate.
+func ruleSyncMapRegistry(c *Ctx, rule string, sm *types.Named, getF *ssa.Function) (int, bool) {
+	st, ok := sm.Underlying().(*types.Struct)
+	if !ok {
+		return 0, false
+	}
+	reg := -1
+	for i := 0; i < st.NumFields(); i++ {
+		if st.Field(i).Type().String() == "sync.Map" {
+			reg = i
+		}
+		if _, isMap := st.Field(i).Type().Underlying().(*types.Map); isMap {
+			return 0, false // a plain map registry: the lock rules apply
+		}
+	}
+	if reg < 0 {
+		return 0, false
+	}
+	n := 0
+	var los []*ssa.Call
+	for _, f := range c.P.PkgFuncs(mutexPkg) {
+		for _, ci := range Calls(f) {
+			if ci.Static == nil || !strings.HasPrefix(qualName(ci.Static), "sync.(Map).") {
+				continue
+			}
+			fa, isFA := ci.Recv().(*ssa.FieldAddr)
+			if !isFA || fa.Field != reg || structOf(fa.X.Type()) != st {
+				continue
+			}
+			n++
+			m := ci.Static.Name()
+			okM := m == "Load" || m == "LoadOrStore" || m == "Range"
+			c.Check(okM, rule, fmt.Sprintf("registry operation %s in %s", m, fname(f)), ci.Pos(), "entries are only added, atomically (Load / LoadOrStore / Range)",
+				"the registry is changed with "+m+": an entry can be replaced or dropped while a holder still owns the old mutex — two holders of one name no longer exclude each other")
+			if m == "LoadOrStore" {
+				if call, isCall := ci.Instr.(*ssa.Call); isCall {
+					los = append(los, call)
+				}
+			}
+		}
+	}
+	// what get returns comes out of the registry
+	okRet := len(los) > 0
+	why := "get never adds a missing name with LoadOrStore"
+	for _, r := range returnsOf(getF) {
+		for _, o := range Origins(r.Results[0], FlowOpts{}) {
+			if o.Kind == "alloc" || o.Kind == "new" {
+				okRet, why = false, "get can return the mutex it has just made instead of the one the registry holds"
+			}
+		}
+	}
+	for _, lo := range los {
+		if len(resultN(lo, 0)) == 0 {
+			okRet, why = false, "the value LoadOrStore returned is dropped"
+		}
+	}
+	n++
+	c.Check(okRet, rule, "get hands out the registry's mutex", getF.Pos(), "every result comes from Load / LoadOrStore", why+" — two callers racing for a new name get different mutexes")
+	return n, true
+}
+
+// appendedElems: v is read from an element of a local slice that is only built by
+// append(s, x...) calls in the same function: the appended values and where.
+type appendedElem struct {
+	v  ssa.Value
+	at ssa.Instruction
+}
+
+func appendedElems(v ssa.Value) []appendedElem {
+	ia := elementSource(v)
+	if ia == nil {
+		return nil
+	}
+	var out []appendedElem
+	seen := map[ssa.Value]bool{}
+	ok := true
+	var walk func(s ssa.Value, d int)
+	walk = func(s ssa.Value, d int) {
+		if s == nil || seen[s] || d > 12 {
+			return
+		}
+		seen[s] = true
+		switch x := s.(type) {
+		case *ssa.Phi:
+			for _, e := range x.Edges {
+				walk(e, d+1)
+			}
+		case *ssa.Call:
+			b, isB := x.Call.Value.(*ssa.Builtin)
+			if !isB || b.Name() != "append" || len(x.Call.Args) != 2 {
+				ok = false
+				return
+			}
+			walk(x.Call.Args[0], d+1)
+			sl, isSl := x.Call.Args[1].(*ssa.Slice)
+			if !isSl {
+				ok = false
+				return
+			}
+			arr, isA := sl.X.(*ssa.Alloc)
+			if !isA {
+				ok = false
+				return
+			}
+			for _, r := range *arr.Referrers() {
+				if ea, isIA := r.(*ssa.IndexAddr); isIA {
+					for _, r2 := range *ea.Referrers() {
+						if st, isSt := r2.(*ssa.Store); isSt && st.Addr == ssa.Value(ea) {
+							out = append(out, appendedElem{st.Val, x})
+						}
+					}
+				}
+			}
+		case *ssa.MakeSlice, *ssa.Const:
+			// empty start
+		case *ssa.Slice:
+			walk(x.X, d+1)
+		default:
+			ok = false
+		}
+	}
+	walk(ia.X, 0)
+	if !ok {
+		return nil
+	}
+	return out
+}
+
+// appendedElemsOfCall: the element values of one append(s, x, y...) call.
+func appendedElemsOfCall(app *ssa.Call) []ssa.Value {
+	var out []ssa.Value
+	sl, ok := app.Call.Args[1].(*ssa.Slice)
+	if !ok {
+		return nil
+	}
+	arr, ok := sl.X.(*ssa.Alloc)
+	if !ok {
+		return nil
+	}
+	for _, r := range *arr.Referrers() {
+		if ea, isIA := r.(*ssa.IndexAddr); isIA {
+			for _, r2 := range *ea.Referrers() {
+				if st, isSt := r2.(*ssa.Store); isSt && st.Addr == ssa.Value(ea) {
+					out = append(out, st.Val)
+				}
+			}
+		}
+	}
+	return out
 }
